@@ -102,7 +102,7 @@ impl Check for C17 {
         "C17"
     }
     fn rule(&self) -> String {
-        "strings of 0-40 building blocks: ASCII, CR/LF in every arrangement (\\r, \\n, \\r\\n, \\n\\r, \\r\\r\\n), base+combining marks, lone marks, ZWJ emoji sequences, skin-tone modifiers, regional-indicator pairs and odd runs, Hangul L/V/T jamo, prepend characters, variation selectors, control/boundary code points, arbitrary chars; 15% of the strings are ASCII lines of 60-300 bytes with CR / LF / CR LF written at generated offsets, half of them at the last byte of a 16/32/64-byte block (+-2); in 30% of the cases 1-3 earlier strings (up to 2600 repetitions of a unit, i.e. beyond 1024 chars) are converted through the same scratch buffer first, and the buffer may start with a capacity of 1000-5000; plus generated valid slice ranges of all nine bound-kind combinations. Reference: is_ascii && !contains(CRLF) => Ascii(bytes) else first code point per extended grapheme cluster (unicode-segmentation) with CR LF -> LF; all constructors (Utf32Str::new, From<&str>, From<String>, From<Box<str>>, From<Cow> both arms), len/is_empty/is_ascii/get/chars (both directions)/slice/slice_u32/Display compared. Non-trivial: the string has a multi-code-point cluster or a CR LF pair. Distinct by case hash.".into()
+        "strings of 0-40 building blocks: ASCII, CR/LF in every arrangement (\\r, \\n, \\r\\n, \\n\\r, \\r\\r\\n), base+combining marks, lone marks, ZWJ emoji sequences, skin-tone modifiers, regional-indicator pairs and odd runs, Hangul L/V/T jamo, prepend characters, variation selectors, control/boundary code points, arbitrary chars; 15% of the strings are ASCII lines of 60-300 bytes with CR / LF / CR LF written at generated offsets, half of them at the last byte of a 16/32/64-byte block (+-2); in 30% of the cases 1-3 earlier strings (up to 2600 repetitions of a unit, i.e. beyond 1024 chars) are converted through the same scratch buffer first, and the buffer may start with a capacity of 1000-5000; 8% are non-ASCII lines of 33-200 mostly 3- and 4-byte characters; plus generated valid slice ranges of all nine bound-kind combinations. Reference: is_ascii && !contains(CRLF) => Ascii(bytes) else first code point per extended grapheme cluster (unicode-segmentation) with CR LF -> LF; all constructors (Utf32Str::new, From<&str>, From<String>, From<Box<str>>, From<Cow> both arms), len/is_empty/is_ascii/get/chars (both directions)/slice/slice_u32/Display compared. Non-trivial: the string has a multi-code-point cluster or a CR LF pair. Distinct by case hash.".into()
     }
     fn assumptions(&self) -> Vec<String> {
         vec!["cluster boundaries are those of the unicode-segmentation crate (the same crate the library uses; trusted base for UAX #29)".into()]
@@ -147,7 +147,11 @@ impl Check for C17 {
             }
             vec![cs.into_iter().collect::<String>()]
         });
-        let blocks = prop_oneof![85 => blocks, 15 => long_ascii];
+        // long non-ASCII lines (more than 64 clusters, mostly 3- and 4-byte characters)
+        let wide = prop_oneof![70 => proptest::sample::select(vec!['漢', '字', 'か', '한', '€']), 15 => proptest::sample::select(vec!['😀', '𝄞', '𠀀']), 10 => Just('é'), 5 => Just('a')];
+        let widest = prop_oneof![80 => proptest::sample::select(vec!['漢', '字', 'か']), 20 => proptest::sample::select(vec!['😀', '𠀀'])];
+        let long_unicode = prop_oneof![3 => proptest::collection::vec(wide, 33..=200), 1 => proptest::collection::vec(widest, 64..=140)].prop_map(|cs| vec![cs.into_iter().collect::<String>()]);
+        let blocks = prop_oneof![78 => blocks, 14 => long_ascii, 8 => long_unicode];
         let prev = prop_oneof![
             70 => Just(vec![]),
             30 => proptest::collection::vec((prop_oneof![3 => proptest::sample::select(vec!["é", "a\r\n", "e\u{301}x", "漢字", "ab"]).prop_map(|s| s.to_string()), 1 => crate::c17::blocks_pub()], prop_oneof![2 => 1u16..40, 1 => 300u16..700, 1 => 1025u16..2600]), 1..=3),
@@ -173,6 +177,9 @@ impl Check for C17 {
         }
         if s.is_empty() {
             out.label("empty");
+        }
+        if !s.is_ascii() && s.chars().count() >= 64 {
+            out.label("non-ascii-with-64-or-more-chars");
         }
         if s.len() > 64 {
             out.label("longer-than-64-bytes");
